@@ -6,12 +6,48 @@ TPL = {"orig:P": "P0 {x:name}|{y}", "orig:C": "C0 {y:line}|{x}", "orig:N": "N0 {
        "kw": "KW {x:name}!", "kwn": "KN {x:>{w}}|{y:line}|{x:<{w}}.",
        "kwc": "KC {x:shout}|{y:name}",
        # attributes of a field value, among them the names the template machinery uses for itself
+       # values that cannot describe themselves
+       "kwh": "KH {rec}|{mute}|{x:name}",
        "kwa": "KA {pt.value}|{pt.key:name}|{pt.formatter}|{pt.other}|{pt._hidden}|{fn.__name__:name}|{x}"}
 
 
 class Point:
     """a field value with attributes (an enum member has .value, a dict item view .key ...)"""
     value, key, formatter, other, _hidden = "pv", "pk", "pf", "po", "ph"
+
+
+class Record:
+    """a dict-backed record: unknown attributes are looked up among the cells (KeyError), and its text names a cell
+    that is not there"""
+    def __init__(self):
+        self.__dict__["cells"] = {"a": 1}
+
+    def __getattr__(self, name):
+        return self.__dict__["cells"][name]
+
+    def __str__(self):
+        return "Record(%s)" % self.total
+
+    def __repr__(self):
+        return "<record of %d cells>" % len(self.__dict__["cells"])
+
+
+class Mute:
+    """neither str() nor repr() work"""
+    def __repr__(self):
+        raise ValueError("no text for you")
+    __str__ = __repr__
+
+
+def describe(v):
+    """what stands in a message for a field without a declared format"""
+    try:
+        return str(v)
+    except Exception:
+        try:
+            return repr(v)
+        except Exception:
+            return object.__repr__(v)
 
 
 def helper_function():
@@ -101,7 +137,9 @@ class World:
         from pedal.core.location import Location
         if c == "T":
             return {"location": Location(5), "name": "nm"}
-        return {"x": "vx", "y": 7, "w": 6, "pt": Point(), "fn": helper_function}
+        if not hasattr(self, "_hostile"):
+            self._hostile = (Record(), Mute())
+        return {"x": "vx", "y": 7, "w": 6, "pt": Point(), "fn": helper_function, "rec": self._hostile[0], "mute": self._hostile[1]}
 
     def expected_message(self, c, m, i):
         """Oracle for MessageDerivation: explicit message, else the template with every field substituted
@@ -127,7 +165,7 @@ class World:
             if spec in fmt.available:
                 out.append(format(getattr(fmt, spec)(v), ""))
             else:
-                out.append(format(str(v), spec or ""))
+                out.append(format(describe(v), spec or ""))
         return "".join(out)
 
     # ---- actions
@@ -150,6 +188,8 @@ class World:
                     kw["message_template"] = TPL["kwc"]
                 elif mk == "kwattr":
                     kw["message_template"] = TPL["kwa"]
+                elif mk == "kwhostile":
+                    kw["message_template"] = TPL["kwh"]
                 if a["delay"]:
                     kw["delay_condition"] = True
                 if a.get("par") == "str":
